@@ -4,6 +4,7 @@ package main
 
 import (
 	"fmt"
+	"runtime"
 	"strings"
 	"time"
 
@@ -37,6 +38,8 @@ type cacheIface interface {
 	get(k string) (int, func(bool), bool)
 	remove(k string)
 	expire(k string)
+	lock()
+	unlock()
 }
 
 type lruC struct{ c *cacheutil.LRUCache }
@@ -54,6 +57,8 @@ func (l lruC) get(k string) (int, func(bool), bool) {
 }
 func (l lruC) remove(k string) { l.c.Remove(k) }
 func (l lruC) expire(k string) { l.c.Remove(k) }
+func (l lruC) lock()           { l.c.VerifLock() }
+func (l lruC) unlock()         { l.c.VerifUnlock() }
 
 type ttlC struct{ c *cacheutil.TTLCache }
 
@@ -70,6 +75,8 @@ func (t ttlC) get(k string) (int, func(bool), bool) {
 }
 func (t ttlC) remove(k string) { t.c.Remove(k) }
 func (t ttlC) expire(k string) { t.c.VerifExpire(k) }
+func (t ttlC) lock()           { t.c.VerifLock() }
+func (t ttlC) unlock()         { t.c.VerifUnlock() }
 
 // machine executes ops against the implementation and evaluates the model-free oracle.
 type machine struct {
@@ -161,6 +168,32 @@ func (m *machine) do(o Op) Out {
 			m.hopen[o.H] = false
 			m.handles[o.H](o.Ev)
 		}
+	case "rel2":
+		// two concurrent calls of the SAME done closure, both parked on the cache mutex and released together
+		// (the model: two Release steps in a row; the second must be a no-op for the reference count)
+		if o.H < len(m.handles) {
+			m.hopen[o.H] = false
+			m.c.lock()
+			fin := make(chan struct{}, 2)
+			for g := 0; g < 2; g++ {
+				go func() { m.handles[o.H](o.Ev); fin <- struct{}{} }()
+			}
+			parked := false
+			for spin := 0; spin < 2000 && !parked; spin++ {
+				buf := make([]byte, 1<<16)
+				n := runtime.Stack(buf, true)
+				parked = strings.Count(string(buf[:n]), "decreaseOnceFunc") >= 2 && strings.Count(string(buf[:n]), "sync.(*Mutex).Lock") >= 2
+				if !parked {
+					time.Sleep(200 * time.Microsecond)
+				}
+			}
+			if !parked {
+				m.problems = append(m.problems, "harness: the two concurrent releases did not park on the cache mutex")
+			}
+			m.c.unlock()
+			<-fin
+			<-fin
+		}
 	}
 	out.Calls = append([]int{}, m.calls...)
 	return out
@@ -193,6 +226,8 @@ func gen(r *hx.Rng) Case {
 		c.Cap = r.Pick(3, 3, 2, 1) + 1 // 1..4
 		if r.Chance(1, 10) {
 			c.Cap = 0
+		} else if r.Chance(1, 9) {
+			c.Cap = -r.Range(1, 3) // negative MaxEntries: groupcache/lru evicts on every Add
 		}
 	} else {
 		c.Kind = "ttl"
@@ -222,6 +257,9 @@ func gen(r *hx.Rng) Case {
 			o = Op{Op: "rel", H: h}
 			if c.Kind == "ttl" {
 				o.Ev = r.Chance(1, 3)
+			}
+			if r.Chance(1, 8) {
+				o.Op = "rel2"
 			}
 		case 3:
 			o = Op{Op: "remove", K: r.Intn(nkeys)}
@@ -254,30 +292,34 @@ func exec(c Case) ([]Out, []string) {
 }
 
 func coqCase(c Case, outs []Out) string {
-	ops := make([]string, len(c.Ops))
+	ops := make([]string, 0, len(c.Ops))
+	os := make([]string, 0, len(outs))
 	for i, o := range c.Ops {
+		r := "None"
+		if outs[i].Has {
+			r = fmt.Sprintf("Some (%d, %s)", outs[i].V, hx.CoqBool(outs[i].Flag))
+		}
+		os = append(os, fmt.Sprintf("(%s, %s)", r, hx.CoqNatList(outs[i].Calls)))
+		switch o.Op {
+		case "rel2":
+			ops = append(ops, fmt.Sprintf("Release %d %s", o.H, hx.CoqBool(o.Ev)), fmt.Sprintf("Release %d %s", o.H, hx.CoqBool(o.Ev)))
+			os = append(os, "(None, [])")
+			continue
+		}
 		switch o.Op {
 		case "add":
-			ops[i] = fmt.Sprintf("Add %d", o.K)
+			ops = append(ops, fmt.Sprintf("Add %d", o.K))
 		case "get":
-			ops[i] = fmt.Sprintf("Get %d", o.K)
+			ops = append(ops, fmt.Sprintf("Get %d", o.K))
 		case "remove":
-			ops[i] = fmt.Sprintf("Remove %d", o.K)
+			ops = append(ops, fmt.Sprintf("Remove %d", o.K))
 		case "expire":
-			ops[i] = fmt.Sprintf("Expire %d", o.K)
+			ops = append(ops, fmt.Sprintf("Expire %d", o.K))
 		case "rel":
-			ops[i] = fmt.Sprintf("Release %d %s", o.H, hx.CoqBool(o.Ev))
+			ops = append(ops, fmt.Sprintf("Release %d %s", o.H, hx.CoqBool(o.Ev)))
 		}
 	}
-	os := make([]string, len(outs))
-	for i, o := range outs {
-		r := "None"
-		if o.Has {
-			r = fmt.Sprintf("Some (%d, %s)", o.V, hx.CoqBool(o.Flag))
-		}
-		os[i] = fmt.Sprintf("(%s, %s)", r, hx.CoqNatList(o.Calls))
-	}
-	return fmt.Sprintf("(%d, %s, %s)", c.Cap, hx.CoqList(ops), hx.CoqList(os))
+	return fmt.Sprintf("(%s, %s, %s)", hx.CoqZ(int64(c.Cap)), hx.CoqList(ops), hx.CoqList(os))
 }
 
 func main() {
@@ -289,7 +331,7 @@ func main() {
 		kinds := map[string]bool{}
 		for i, o := range c.Ops {
 			ctx.Count("op." + o.Op)
-			if o.Op == "rel" && o.Ev {
+			if (o.Op == "rel" || o.Op == "rel2") && o.Ev {
 				ctx.Count("op.rel.evict")
 			}
 			kinds[o.Op] = true
@@ -305,6 +347,9 @@ func main() {
 			}
 		}
 		ctx.Count("kind." + c.Kind)
+		if c.Cap < 0 {
+			ctx.Count("cap.negative")
+		}
 		ctx.CountN("ops", len(c.Ops))
 		nontrivial := ncb > 0 && len(kinds) >= 3
 		id := ctx.Case(coqCase(c, outs), c, coqCase(c, outs), nontrivial)
@@ -325,6 +370,13 @@ func main() {
 		{Kind: "lru", Cap: 1, Ops: []Op{{Op: "add", K: 0}, {Op: "add", K: 1}, {Op: "rel", H: 0}, {Op: "rel", H: 0}, {Op: "get", K: 0}, {Op: "add", K: 1}, {Op: "rel", H: 1}, {Op: "rel", H: 2}, {Op: "remove", K: 1}}},
 		{Kind: "ttl", Ops: []Op{{Op: "add", K: 2}, {Op: "get", K: 2}, {Op: "rel", H: 0, Ev: true}, {Op: "rel", H: 0, Ev: true}, {Op: "rel", H: 1, Ev: false}, {Op: "get", K: 2}}},
 	}
+	corpus = append(corpus,
+		// negative capacity: every Add evicts the value it just inserted (held by the adder, out of the cache)
+		Case{Kind: "lru", Cap: -1, Ops: []Op{{Op: "add", K: 0}, {Op: "get", K: 0}, {Op: "add", K: 0}, {Op: "rel", H: 0}, {Op: "rel", H: 1}, {Op: "add", K: 1}, {Op: "rel2", H: 2}}},
+		// two concurrent calls of one done closure, with a second holder and a later eviction
+		Case{Kind: "lru", Cap: 2, Ops: []Op{{Op: "add", K: 0}, {Op: "get", K: 0}, {Op: "rel2", H: 0}, {Op: "remove", K: 0}, {Op: "rel", H: 1}}},
+		Case{Kind: "ttl", Ops: []Op{{Op: "add", K: 1}, {Op: "get", K: 1}, {Op: "rel2", H: 0, Ev: true}, {Op: "get", K: 1}, {Op: "rel2", H: 1}, {Op: "add", K: 1}, {Op: "rel2", H: 2, Ev: true}}},
+	)
 	for _, c := range corpus {
 		emit(c)
 	}
